@@ -112,3 +112,12 @@ package olla
 //@   modifies ghost(w).started, ghost(w).status, gvar unflushed, gvar evBroken, state.lastChunk, state.lastChunkBuf, state.totalBytes, state.bytesAfterDisconnect, ghost remaining, ghost backing
 //@   ensures old(evBroken) ==> evBroken
 //@   ensures isStreaming && old(unflushed) == 0 && res == nil ==> unflushed == 0 || evBroken
+
+// ---- C19, engine scope (same clause as the sherpa engine)
+//@ func (s *Service) ProxyRequestToEndpointsWithRetry
+//@   property C19
+//@   replay proxy_engine_stats_conservation@internal/adapter/proxy
+//@   requires s != nil && s.retryHandler != nil && r != nil && r.URL != nil && stats != nil && rlog != nil && allNonNil(endpoints) && uniqueNames(endpoints) && !ghost(w).started
+//@   modifies *
+//@   ensures reqCount == old(reqCount) + 1
+//@   ensures recSuccess + recFailure - (old(recSuccess) + old(recFailure)) == reqCount - old(reqCount)
